@@ -104,7 +104,7 @@ impl Property for C06 {
         "exploration"
     }
     fn rule(&self) -> &'static str {
-        "A scenario = clean generated stream with whitespace-delimited garbage regions (1..3 tokens of bytes that cannot start a JSON value, incl. } ] , : . e E + and non-UTF-8 bytes) dropped into its gaps (also before the first and after the last value; in some scenarios the last token ends exactly at end of input, or the stream ends inside a truncated string/array/object; special tokens: byte-order marks, VT, FF, NEL, NBSP), arriving on stdin, as a file argument or as the only file of a directory argument (hook H2), with seeded short writes and EINTR on both sinks, x one of the four --on-error policies x a pipeline of any class (JSON rows with the default separator under the stdout policy) x a seeded delivery plan. Compared with executions of the same build on the garbage-free stream (same policy and under `ignore`) and, for `panic` and for the placement of diagnostics under `stdout`, on the clean prefix cut before each region. Which regions a run got to: all of them without --take (the first under panic); with --take only those whose first byte was delivered and after which a row of a later value came out (how far jawk read ahead does not settle it). evaluations = jawk executions; non-trivial = at least one garbage region was reached; distinct = distinct abstract traces. Round 7: a garbage region at offset 0 of an input is, half of the time, header junk (byte-order marks whole or cut, #!, form feed, NUL), also at the start of a later file; spelling level 2 writes one member of an object twice (same name, same value); one garnished scenario in four has a row sink whose flush fails while writes succeed - judged only if the garbage-free run on the same sinks succeeds, and then the noisy run must succeed too."
+        "A scenario = clean generated stream with whitespace-delimited garbage regions (1..3 tokens of bytes that cannot start a JSON value, incl. } ] , : . e E + and non-UTF-8 bytes) dropped into its gaps (also before the first and after the last value; in some scenarios the last token ends exactly at end of input, or the stream ends inside a truncated string/array/object; special tokens: byte-order marks, VT, FF, NEL, NBSP), arriving on stdin, as a file argument or as the only file of a directory argument (hook H2), with seeded short writes and EINTR on both sinks, x one of the four --on-error policies x a pipeline of any class (JSON rows with the default separator under the stdout policy) x a seeded delivery plan. Compared with executions of the same build on the garbage-free stream (same policy and under `ignore`) and, for `panic` and for the placement of diagnostics under `stdout`, on the clean prefix cut before each region. Which regions a run got to: all of them without --take (the first under panic); with --take only those whose first byte was delivered and after which a row of a later value came out (how far jawk read ahead does not settle it). evaluations = jawk executions; non-trivial = at least one garbage region was reached; distinct = distinct abstract traces. Round 7: a garbage region at offset 0 of an input is, half of the time, header junk (byte-order marks whole or cut, #!, form feed, NUL), also at the start of a later file; spelling level 2 writes the last member of an object twice (same name, same value); one garnished scenario in four has a row sink whose flush fails while writes succeed - judged only if the garbage-free run on the same sinks succeeds, and then the noisy run must succeed too."
     }
     fn assumptions(&self) -> Vec<String> {
         vec![
